@@ -100,4 +100,65 @@ mod verif_oracle_guards {
             }
         }
     }
+
+    // contracts of SumVec::new / L1BoundSum::new / MultihotCountVec::new (unit flp_new): Ok exactly on the documented
+    // domain, never a panic, and the gadget calls (== joint_rand_len) cover every chunk of the encoded input
+    #[test]
+    fn oracle_flp_new() {
+        use crate::flp::types::{L1BoundSum, MultihotCountVec, SumVec};
+        type PS = ParallelSum<Field128, Mul>;
+        let bits = |m: u128| 128 - m.leading_zeros() as u128;
+        let lens = [0usize, 1, 2, 3, 4, 5, 6, 7, 9, 1 << 20, usize::MAX / 2, usize::MAX - 1, usize::MAX];
+        let chunks = [0usize, 1, 2, 3, 4, 5, 7, 8, 1 << 16];
+        let maxes = [0u128, 1, 2, 3, 4, 7, 8, 255, 256, (1 << 64) - 1, 1 << 64, u128::MAX];
+        let modulus = Field128::modulus();
+        for &max in &maxes { for &len in &lens { for &chunk in &chunks {
+            // L1BoundSum: input = (len + 1) numbers of `bits` digits
+            let total = bits(max).checked_mul(len as u128 + 1).filter(|t| *t <= usize::MAX as u128);
+            let want_ok = len > 0 && chunk > 0 && max > 0 && max < modulus && total.is_some();
+            match catch_unwind(|| L1BoundSum::<Field128, PS>::new(max, len, chunk).map(|t| (t.input_len(), t.joint_rand_len()))) {
+                Err(_) => println!("COUNTEREXAMPLE L1BoundSum::new max_value={} measurement_len={} chunk_length={} panicked", max, len, chunk),
+                Ok(Err(_)) if want_ok => println!("COUNTEREXAMPLE L1BoundSum::new max_value={} measurement_len={} chunk_length={} got Err want Ok", max, len, chunk),
+                Ok(Ok(x)) if !want_ok => println!("COUNTEREXAMPLE L1BoundSum::new max_value={} measurement_len={} chunk_length={} got Ok{:?} want Err", max, len, chunk, x),
+                Ok(Ok((il, calls))) => {
+                    let t = total.unwrap();
+                    let want_calls = (t + chunk as u128 - 1) / chunk as u128;
+                    if il as u128 != t || calls as u128 != want_calls {
+                        println!("COUNTEREXAMPLE L1BoundSum::new max_value={} measurement_len={} chunk_length={}: input_len {} (want {}), gadget calls {} (want ceil(input_len/chunk_length) = {}: the last chunk, digits of the claimed norm, is not range-checked)", max, len, chunk, il, t, calls, want_calls);
+                    }
+                }
+                _ => {}
+            }
+            // SumVec: input = len numbers of `bits` digits
+            let total = bits(max).checked_mul(len as u128).filter(|t| *t <= usize::MAX as u128);
+            let want_ok = len > 0 && chunk > 0 && max > 0 && max < modulus && total.is_some();
+            match catch_unwind(|| SumVec::<Field128, PS>::new(max, len, chunk).map(|t| (t.input_len(), t.joint_rand_len()))) {
+                Err(_) => println!("COUNTEREXAMPLE SumVec::new max_measurement={} len={} chunk_length={} panicked", max, len, chunk),
+                Ok(Err(_)) if want_ok => println!("COUNTEREXAMPLE SumVec::new max_measurement={} len={} chunk_length={} got Err want Ok", max, len, chunk),
+                Ok(Ok(x)) if !want_ok => println!("COUNTEREXAMPLE SumVec::new max_measurement={} len={} chunk_length={} got Ok{:?} want Err", max, len, chunk, x),
+                Ok(Ok((il, calls))) => {
+                    let t = total.unwrap();
+                    if il as u128 != t || calls as u128 != (t + chunk as u128 - 1) / chunk as u128 {
+                        println!("COUNTEREXAMPLE SumVec::new max_measurement={} len={} chunk_length={}: input_len {} gadget calls {}", max, len, chunk, il, calls);
+                    }
+                }
+                _ => {}
+            }
+        } } }
+        for &buckets in &[0usize, 1, 2, 5, 8, (u32::MAX as usize) - 1, u32::MAX as usize, usize::MAX] { for &w in &[0usize, 1, 2, 3, 4, 7, 8, usize::MAX] { for &chunk in &chunks {
+            let want_ok = buckets > 0 && buckets < u32::MAX as usize && chunk > 0 && w > 0;
+            match catch_unwind(|| MultihotCountVec::<Field128, PS>::new(buckets, w, chunk).map(|t| (t.input_len(), t.joint_rand_len()))) {
+                Err(_) => println!("COUNTEREXAMPLE MultihotCountVec::new num_buckets={} max_weight={} chunk_length={} panicked", buckets, w, chunk),
+                Ok(Err(_)) if want_ok => println!("COUNTEREXAMPLE MultihotCountVec::new num_buckets={} max_weight={} chunk_length={} got Err want Ok", buckets, w, chunk),
+                Ok(Ok(x)) if !want_ok => println!("COUNTEREXAMPLE MultihotCountVec::new num_buckets={} max_weight={} chunk_length={} got Ok{:?} want Err", buckets, w, chunk, x),
+                Ok(Ok((il, calls))) => {
+                    let t = buckets as u128 + bits(w as u128);
+                    if il as u128 != t || calls as u128 != (t + chunk as u128 - 1) / chunk as u128 {
+                        println!("COUNTEREXAMPLE MultihotCountVec::new num_buckets={} max_weight={} chunk_length={}: input_len {} gadget calls {}", buckets, w, chunk, il, calls);
+                    }
+                }
+                _ => {}
+            }
+        } } }
+    }
 }
